@@ -7,6 +7,7 @@
 package c13
 
 import (
+	"archive/zip"
 	"bytes"
 	"encoding/json"
 	"flag"
@@ -402,6 +403,7 @@ func runHTTP(c Case, o *vh.Obs) *vh.Failure {
 	var hist []porcupine.Operation
 	var problems []string
 	var wg sync.WaitGroup
+	zips := 0
 	start := make(chan struct{})
 	names := []string{"a.txt", "b.txt"}
 	for ci, script := range c.Clients {
@@ -420,6 +422,7 @@ func runHTTP(c Case, o *vh.Obs) *vh.Failure {
 				var out string
 				var code int
 				var crashed any
+				var zipped map[string]string
 				call := atomic.AddInt64(&clock, 1)
 				func() {
 					defer func() { crashed = recover() }()
@@ -431,6 +434,21 @@ func runHTTP(c Case, o *vh.Obs) *vh.Failure {
 						code, body = do("GET", "/parameter/value/"+httpPids[in.param], nil)
 						out = strings.Trim(body, `"`)
 					default:
+						if op.Param >= 2 { // GET /zip: every producer's artifact in one archive
+							var body string
+							code, body = do("GET", "/zip", nil)
+							zipped = map[string]string{}
+							if zr, err := zip.NewReader(strings.NewReader(body), int64(len(body))); err == nil {
+								for _, zf := range zr.File {
+									if rc, err := zf.Open(); err == nil {
+										b, _ := io.ReadAll(rc)
+										rc.Close()
+										zipped[zf.Name] = string(b)
+									}
+								}
+							}
+							return
+						}
 						code, out = do("GET", "/producer/value/"+names[in.param%2], nil)
 					}
 				}()
@@ -439,7 +457,18 @@ func runHTTP(c Case, o *vh.Obs) *vh.Failure {
 				if crashed != nil || code != 200 {
 					problems = append(problems, fmt.Sprintf("client %d op %d (%s): status %d panic %v", ci, k, model.DescribeOperation(in, out), code, crashed))
 				}
-				hist = append(hist, porcupine.Operation{ClientId: ci, Input: in, Call: call, Output: out, Return: ret})
+				if zipped != nil {
+					// the archive is written artifact by artifact: each file is one artifact read somewhere inside the request
+					if len(zipped) != len(names) {
+						problems = append(problems, fmt.Sprintf("client %d op %d: GET /zip returned %d files, the graph has %d producers", ci, k, len(zipped), len(names)))
+					}
+					for ai, nm := range names {
+						hist = append(hist, porcupine.Operation{ClientId: ci, Input: linIn{kind: 2, param: ai}, Call: call, Output: zipped[nm], Return: ret})
+					}
+					zips++
+				} else {
+					hist = append(hist, porcupine.Operation{ClientId: ci, Input: in, Call: call, Output: out, Return: ret})
+				}
 				mu.Unlock()
 			}
 		}(ci, script)
@@ -465,6 +494,10 @@ func runHTTP(c Case, o *vh.Obs) *vh.Failure {
 	o.NonTrivial()
 	o.Class(fmt.Sprintf("http/clients/%d", len(c.Clients)))
 	o.Count("http-operations", len(hist))
+	if zips > 0 {
+		o.Class("http/zip-requests")
+		o.Count("http-zip-requests", zips)
+	}
 	m := model
 	m.Init = func() interface{} { return init }
 	if !porcupine.CheckOperations(m, hist) {
